@@ -28,6 +28,7 @@ import (
 
 const (
 	classWindow    = "c13-unsubscribe-window-publication-delivered-after-subscription-end"
+	classRace      = "c13-push-added-to-batch-during-unsubscribe-delivered-after-subscription-end"
 	classAfterEnd  = "c13-push-delivered-after-subscription-end"
 	classStale     = "c13-stale-push-delivered-in-later-subscription"
 	classOutside   = "c13-push-delivered-without-subscription"
@@ -70,6 +71,7 @@ type prodRec struct {
 	RetSeq  int64         `json:"ret"`
 	At      time.Duration `json:"at"`
 	Window  bool          `json:"in_unsubscribe_window,omitempty"`
+	Raced   bool          `json:"unsubscribe_ran_before_its_batch_add,omitempty"`
 	idx     int
 }
 
@@ -134,6 +136,20 @@ type hookAction struct {
 	gap  time.Duration
 }
 
+// racePlan: while the publication is on its way to the observer's batch writer
+// (yield point write.beforeChannelBatchAdd: it already passed the subscribed
+// check), the observer unsubscribes in another goroutine; the publishing
+// goroutine busy-yields (it holds the hub shard lock: no sleeping) until the
+// unsubscribe has removed the channel and its batch writer.
+type racePlan struct {
+	client  *centrifuge.Client
+	ch      string
+	run     func()
+	fired   bool
+	deleted atomic.Bool
+	done    chan struct{}
+}
+
 type event struct {
 	gapKind string // fixed | aim | near
 	gap     time.Duration
@@ -158,9 +174,11 @@ type scenario struct {
 	nextPub int
 	nextJ   int
 	plans   map[*centrifuge.Client]*hookPlan
+	race    *racePlan
 	joiners []*joiner
 	allConn []*kit.Conn
 	windowN int
+	racedN  int
 }
 
 func (s *scenario) record(rec *prodRec) {
@@ -270,7 +288,21 @@ func (s *scenario) hook(point string, cl *centrifuge.Client, ch string) {
 	}
 	s.mu.Lock()
 	pl := s.plans[cl]
+	rp := s.race
 	s.mu.Unlock()
+	if rp != nil && rp.client == cl && rp.ch == ch {
+		switch point {
+		case "write.beforeChannelBatchAdd":
+			if !rp.fired {
+				rp.fired = true
+				go rp.run()
+				kit.SpinUntil(rp.deleted.Load, 300000)
+			}
+		case "unsub.afterDelete":
+			rp.deleted.Store(true)
+		}
+		return
+	}
 	if pl == nil || pl.point != point || pl.ch != ch {
 		return
 	}
@@ -692,7 +724,10 @@ func runCase(c *kit.Case) {
 			ev.kind = "unsub"
 			ev.obs = r.Intn(nObs)
 			ev.via = kit.Pick(r, []string{"command", "command", "server"})
-			if r.Chance(3, 4) {
+			ev.key = kit.Pick(r, keys)
+			if r.Chance(1, 4) {
+				ev.kind = "raceunsub"
+			} else if r.Chance(3, 4) {
 				pl := &hookPlan{point: kit.Pick(r, []string{"unsub.afterDelete", "unsub.beforeHubRemove"})}
 				pl.before = kit.Pick(r, []time.Duration{0, 0, time.Millisecond, 5 * time.Millisecond})
 				pl.after = kit.Pick(r, []time.Duration{0, 0, 2 * time.Millisecond, 12 * time.Millisecond, 30 * time.Millisecond})
@@ -795,6 +830,48 @@ func runCase(c *kit.Case) {
 			s.mu.Lock()
 			delete(s.plans, o.conn.Client)
 			s.mu.Unlock()
+		case "raceunsub":
+			o := observers[ev.obs]
+			in := current(o, cc.Name)
+			if !o.alive || in == nil {
+				continue
+			}
+			via := ev.via
+			if o.uni {
+				via = "server"
+			}
+			rp := &racePlan{client: o.conn.Client, ch: cc.Name, done: make(chan struct{})}
+			rp.run = func() {
+				defer close(rp.done)
+				in.HookAt = "write.beforeChannelBatchAdd"
+				in.EndAt = w.Now()
+				in.EndCall = w.Seq()
+				if via == "command" {
+					in.EndKind = "unsub-command"
+					in.EndCmd = o.conn.NextID()
+					o.conn.Do(&protocol.Command{Id: in.EndCmd, Unsubscribe: &protocol.UnsubscribeRequest{Channel: cc.Name}})
+				} else {
+					in.EndKind = "unsub-server"
+					o.conn.Client.Unsubscribe(cc.Name)
+				}
+				in.EndRet = w.Seq()
+			}
+			s.mu.Lock()
+			s.race = rp
+			s.mu.Unlock()
+			rec := s.publish(cc.Name, ev.key, cc.Hist, false)
+			s.mu.Lock()
+			s.race = nil
+			s.mu.Unlock()
+			if rp.fired {
+				<-rp.done
+				rec.Raced = rp.deleted.Load()
+				if rec.Raced {
+					s.racedN++
+				} else {
+					c.Count("raced_unsubscribe_too_late", 1)
+				}
+			}
 		case "resub":
 			o := observers[ev.obs]
 			if !o.alive || current(o, cc.Name) != nil {
@@ -849,6 +926,7 @@ func runCase(c *kit.Case) {
 		}
 	}
 	c.Count("window_publishes_without_history", s.windowN)
+	c.Count("unsubscribes_run_between_subscribed_check_and_batch_add", s.racedN)
 	c.Count("productions", len(s.log))
 	if c.Verbose {
 		for _, rec := range s.log {
@@ -982,12 +1060,16 @@ func checkChannel(c *kit.Case, s *scenario, o *observer, cc chanCfg, frames []ki
 			}
 			seen[it.id] = it.seq
 			rec := it.rec
-			inWindow := in.EndCall != 0 && rec.CallSeq > in.EndCall && rec.RetSeq < in.EndRet
+			// produced while the unsubscribe was in progress (inside the hook window, or
+			// a publication whose batch add the unsubscribe overtook)
+			inWindow := in.EndCall != 0 && rec.RetSeq > in.EndCall && rec.CallSeq < in.EndRet
 			switch {
 			case it.after:
 				cls, what := classAfterEnd, "a push"
 				if rec.Kind == "pub" && !rec.Hist && rec.Window {
 					cls, what = classWindow, "a publication without history, published between channel-writer removal and hub removal,"
+				} else if rec.Raced {
+					cls, what = classRace, "a publication that had passed the subscribed check and was added to the channel batch after the unsubscribe removed the batch writer,"
 				}
 				report(c, cls, fmt.Sprintf("observer %d (%s): %s %s (produced seq %d..%d at %v) was delivered on %s at frame seq %d (%v), after the %s acknowledged at frame seq %d",
 					o.idx, o.kind, what, it.id, rec.CallSeq, rec.RetSeq, rec.At, ch, it.seq, it.at, in.EndKind, in.EndSeq), func() any { return detail(in, map[string]any{"item": rec}) })
@@ -996,6 +1078,8 @@ func checkChannel(c *kit.Case, s *scenario, o *observer, cc chanCfg, frames []ki
 				cls, what := classStale, "a push"
 				if rec.Kind == "pub" && !rec.Hist && rec.Window {
 					cls, what = classWindow, "a publication without history, published between channel-writer removal and hub removal of the previous subscription,"
+				} else if rec.Raced {
+					cls, what = classRace, "a publication that had passed the subscribed check and was added to the channel batch after the previous subscription's unsubscribe removed the batch writer,"
 				}
 				report(c, cls, fmt.Sprintf("observer %d (%s): %s %s (produced seq %d..%d at %v, before this subscription was requested at seq %d) was delivered on %s at frame seq %d (%v) inside subscription %d",
 					o.idx, o.kind, what, it.id, rec.CallSeq, rec.RetSeq, rec.At, in.SubCall, ch, it.seq, it.at, in.N), func() any { return detail(in, map[string]any{"item": rec}) })
@@ -1010,8 +1094,13 @@ func checkChannel(c *kit.Case, s *scenario, o *observer, cc chanCfg, frames []ki
 		// refused may sit in a re-created writer: later incarnations are not modelled.
 		nWindow := 0
 		for _, rec := range s.log {
-			if rec.Ch == ch && rec.Window && rec.Kind == "pub" && !rec.Hist && in.EndCall != 0 && rec.CallSeq > in.EndCall && rec.RetSeq < in.EndRet {
+			if rec.Ch != ch || in.EndCall == 0 || !(rec.RetSeq > in.EndCall && rec.CallSeq < in.EndRet) {
+				continue
+			}
+			if rec.Window && rec.Kind == "pub" && !rec.Hist {
 				nWindow++
+			}
+			if (rec.Window && rec.Kind == "pub" && !rec.Hist) || rec.Raced {
 				if _, ok := seen[rec.ID]; !ok && cc.batching() {
 					windowBuffered = true
 				}
@@ -1038,8 +1127,8 @@ func checkChannel(c *kit.Case, s *scenario, o *observer, cc chanCfg, frames []ki
 			if rec.Ch != ch || rec.CallSeq < in.SubRet {
 				continue
 			}
-			if in.EndCall != 0 && rec.CallSeq > in.EndCall {
-				continue
+			if in.EndCall != 0 && rec.RetSeq > in.EndCall {
+				continue // not completed before the unsubscribe / close began
 			}
 			adds = append(adds, rec)
 		}
@@ -1146,7 +1235,7 @@ func checkChannel(c *kit.Case, s *scenario, o *observer, cc chanCfg, frames []ki
 // report records a violation; witnesses of the window class beyond the first
 // few of this process are only counted (see windowReports).
 func report(c *kit.Case, class, msg string, detail func() any) {
-	if class == classWindow {
+	if class == classWindow || class == classRace {
 		if windowReports.Add(1) > maxWindowReportsPerProcess {
 			c.Count("window_defect_witnesses_not_reported", 1)
 			return
@@ -1338,7 +1427,8 @@ func TestC13(t *testing.T) {
 		Rule: "each case = one virtual-time bubble with Config.GetChannelBatchConfig over 1-2 channels drawn from MaxSize {0,1,2,3,5,8} x MaxDelay {0,4,10,25 ms} x FlushLatestPublication x publish with/without history; " +
 			"1-2 observing connections (subscribe command or Client.Subscribe, JSON/Protobuf, bi/unidirectional, PushJoinLeave) and 1-3 other clients whose subscribe/unsubscribe/close emit join/leave pushes carrying unique ids; " +
 			"one driver goroutine executes 12-60 scripted events (Node.Publish with WithKey from a 2-4 key alphabet, join, leave, client close, observer unsubscribe by command or Client.Unsubscribe, resubscribe, close with/without flush) at scripted virtual instants, some aimed exactly at (or 1 ms before) the expiry of the armed flush timer; " +
-			"3 of 4 unsubscribes install a plan for the yield points unsub.afterDelete / unsub.beforeHubRemove that sleeps and publishes (with and without history) or lets a client join inside the window between channel-writer removal and hub removal. " +
+			"most unsubscribes install a plan for the yield points unsub.afterDelete / unsub.beforeHubRemove that sleeps and publishes (with and without history) or lets a client join inside the window between channel-writer removal and hub removal; " +
+			"1 of 4 instead runs the unsubscribe from the yield point write.beforeChannelBatchAdd of a publication that already passed the subscribed check (the publisher busy-yields until the channel writer was removed, then adds). " +
 			"Oracle: the production log (call/return stamps, virtual instant) is replayed through a model of the batch writer (buffer, per-key latest list, timer armed by the first item, size flush); when a timer expires at the instant of an event both orders are allowed. Per subscription incarnation the delivered pushes must equal one allowed outcome " +
 			"(plain: production order, nothing missing; latest: per flush joins/leaves then the newest publication per key ordered by the production of those newest publications); nothing may be delivered after the unsubscribe reply / unsubscribe push, and nothing produced before a subscription was requested may be delivered inside it. " +
 			"Non-trivial = an incarnation with a matched outcome; signature = observer kind x batch config x ending x flush kinds x coincidence choices.",
@@ -1350,11 +1440,12 @@ func TestC13(t *testing.T) {
 			"close without flush: the delivered pushes may be any prefix of the model outcome (the connection queue is discarded); close with flush may or may not deliver what the channel writer still buffered",
 			"the observing connections use the default connection writer (no WriteDelay) and a transport without latency, so a flush reaches the transport at its own virtual instant",
 		},
-		Cases:       map[string]int{"quick": 3200, "thorough": 48000},
+		Cases:       map[string]int{"quick": 3200, "thorough": 32000},
 		CaseTimeout: 120 * time.Second,
 		RequireCounters: []string{"flush_size_triggered", "flush_timer_triggered", "flushes_with_several_items", "coalesced_publications", "joins_delivered", "leaves_delivered",
 			"timer_coincidences_timer_first", "timer_coincidences_event_first", "latest_mode_incarnations", "plain_mode_incarnations", "unbatched_channel_incarnations",
 			"ended_by_unsub-command", "ended_by_unsub-server", "ended_by_close-noflush", "ended_by_close-flush", "unsubscribe_windows_hit", "window_publishes_without_history",
+			"unsubscribes_run_between_subscribed_check_and_batch_add",
 			"unsubscribes_discarding_buffered_items", "incarnations_with_items_left_buffered"},
 		Run: runCase,
 	})
